@@ -88,7 +88,7 @@ type Locks struct {
 	entry   map[*ssa.Function]LockSet // nil = not yet constrained (top)
 	before  map[ssa.Instruction]LockSet
 	callers map[*ssa.Function][]ssa.Instruction // static plain-call sites
-	escapes map[*ssa.Function]bool             // referenced as value / go / defer
+	escapes map[*ssa.Function]bool              // referenced as value / go / defer
 }
 
 // NewLocks computes the analysis for the whole module.
